@@ -129,11 +129,23 @@ fn main() {
         // a libFuzzer artifact (saved as fuzz-<target>-crash-...) is replayed through its target
         let base = std::path::Path::new(file).file_name().map(|x| x.to_string_lossy().to_string()).unwrap_or_default();
         if let Some(rest) = base.strip_prefix("fuzz-") {
-            let target = if rest.starts_with("parse_text") { "parse_text" } else { "exec_program" };
-            match fuzzrun::replay_artifact(target, file) {
+            let target = if rest.starts_with("parse_text") {
+                "parse_text"
+            } else if rest.starts_with("lockstep_ref") {
+                "lockstep_ref"
+            } else if rest.starts_with("roundtrip_text") {
+                "roundtrip_text"
+            } else {
+                "exec_program"
+            };
+            match fuzzrun::replay_artifact(&prop, target, file) {
                 Ok(()) => {
                     exec::say(&format!("replay: fuzz artifact no longer crashes {}", target));
                     std::process::exit(0);
+                }
+                Err(f) if f.signature.starts_with("replay-") => {
+                    exec::say(&format!("INCONCLUSIVE: {} :: {}", f.signature, f.detail));
+                    std::process::exit(2);
                 }
                 Err(f) => {
                     exec::say(&format!("replay: {} :: {}", f.signature, f.detail));
@@ -150,11 +162,44 @@ fn main() {
         if sub == "crash" {
             std::process::exit(supervise::replay_crash(&prop, file, &case));
         }
-        match props::replay(&ctx, &sub, &case) {
-            Ok(()) => {
-                exec::say(&format!("replay: property={} subcheck={} holds on this case", prop, sub));
-                std::process::exit(0);
+        // a violation found by a libFuzzer campaign: the case names the saved artifact
+        if let (Some(art), Some(target)) = (case.get("fuzz_artifact").and_then(|x| x.as_str()), case.get("target").and_then(|x| x.as_str())) {
+            match fuzzrun::replay_artifact(&prop, target, art) {
+                Ok(()) => {
+                    exec::say(&format!("replay: fuzz artifact no longer crashes {}", target));
+                    std::process::exit(0);
+                }
+                Err(f) if f.signature.starts_with("replay-") => {
+                    exec::say(&format!("INCONCLUSIVE: {} :: {}", f.signature, f.detail));
+                    std::process::exit(2);
+                }
+                Err(f) => {
+                    exec::say(&format!("replay: {} :: {}", f.signature, f.detail));
+                    exec::say(&format!("VIOLATION property={} replay={}", prop, file));
+                    std::process::exit(1);
+                }
             }
+        }
+        // A failure that needs state left behind by earlier cases of its run (a memo, a static)
+        // does not reproduce from the case alone: when the case passes in isolation (or cannot be
+        // decoded), the recorded run - same seed, quick tier - is executed again and the recorded
+        // signature is looked for.
+        let rerun = |why: &str| -> ! {
+            let rec_seed = v.get("seed").and_then(|x| x.as_u64()).unwrap_or(seed);
+            let rec_sig = v.get("signature").and_then(|x| x.as_str()).unwrap_or("").to_string();
+            let ctx2 = Ctx { prop: prop.clone(), tier: Tier::Quick, seed: rec_seed, threads, known: Arc::new(load_known(&prop).into_iter().map(|k| k.key).collect()) };
+            let hit = props::run(&ctx2).map(|r| r.violations().iter().any(|x| x.signature == rec_sig)).unwrap_or(false);
+            if hit && !rec_sig.is_empty() {
+                exec::say(&format!("replay: {}; re-running the recorded run (seed {}) reproduces {}", why, rec_seed, rec_sig));
+                exec::say(&format!("VIOLATION property={} replay={}", prop, file));
+                std::process::exit(1);
+            }
+            exec::say(&format!("replay: property={} subcheck={}: {}; the recorded run (seed {}) no longer reports {}", prop, sub, why, rec_seed, rec_sig));
+            std::process::exit(0);
+        };
+        match props::replay(&ctx, &sub, &case) {
+            Ok(()) => rerun("the case holds in isolation"),
+            Err(f) if f.signature == "replay-format" || f.signature == "replay-unsupported" => rerun("the case is not replayable by itself"),
             Err(f) => {
                 exec::say(&format!("replay: {} :: {}", f.signature, f.detail));
                 exec::say(&format!("VIOLATION property={} replay={}", prop, file));
